@@ -187,12 +187,12 @@ def main(a):
     # ---------------------------------------------------------------- verdict
     lines = []
     seen = set()
+    by_id = {}
     for k, unit in known_hits:
-        key = (k.get("id"), unit)
-        if key in seen:
-            continue
-        seen.add(key)
-        lines.append("KNOWN-FINDING: property=%s %s (obligation %s)" % (pid, k["what"], unit))
+        by_id.setdefault(k.get("id"), (k, []))[1].append(unit)
+    for fid, (k, units) in by_id.items():
+        seen.add(fid)
+        lines.append("KNOWN-FINDING: property=%s %s [%s; failed obligations: %s]" % (pid, k["what"], fid, ", ".join(sorted(set(units)))))
     # an open finding whose obligation did not run in this tier is still reported as a reminder (quick tier subset)
     rc = EXIT_OK
     replay_paths = []
